@@ -31,6 +31,20 @@ def _literal_of(alt):
     return "".join(out)
 
 
+def _is_integer_pattern(t):
+    """Is the whole pattern `-?[0-9]+` (an optional minus sign and one or more ASCII digits)? Every match is then a string int() accepts."""
+    data = list(t.data)
+    if data and data[0][0] == C.MAX_REPEAT and data[0][1][0] == 0 and data[0][1][1] == 1 and list(data[0][1][2].data) == [(C.LITERAL, ord("-"))]:
+        data = data[1:]
+    if len(data) != 1 or data[0][0] != C.MAX_REPEAT:
+        return False
+    lo, hi, body = data[0][1]
+    if lo < 1 or len(body.data) != 1:
+        return False
+    op, arg = body.data[0]
+    return op == C.IN and list(arg) == [(C.RANGE, (ord("0"), ord("9")))]
+
+
 def pattern_info(p: re.Pattern):
     key = (p.pattern, p.flags)
     if key in _INFO_CACHE:
@@ -45,7 +59,8 @@ def pattern_info(p: re.Pattern):
             if len(alt.data) == 1 and alt.data[0][0] == C.SUBPATTERN:
                 name = rev.get(alt.data[0][1][0])
             alts.append({"name": name, "min": alt.getwidth()[0], "literal": _literal_of(alt)})
-    info = {"min": lo, "max": hi if hi < 10 ** 9 else None, "alts": alts, "groups": dict(p.groupindex), "ngroups": p.groups}
+    info = {"min": lo, "max": hi if hi < 10 ** 9 else None, "alts": alts, "groups": dict(p.groupindex), "ngroups": p.groups,
+            "int_str": _is_integer_pattern(t)}
     _INFO_CACHE[key] = info
     return info
 
@@ -120,6 +135,10 @@ def regex_match(I, pattern: re.Pattern, args, kw, mode="match"):
     if info["max"] is not None:
         ex.assume(end.t <= pt + info["max"])
     m = HObj(ClassRef("re.Match"), {"_pattern": pattern, "_src": src, "_pos": pos, "_end": end, "_kind": None})
+    if info.get("int_str"):
+        from .intrinsics import P_is_int_str
+        I.use("re: a match of /-?[0-9]+/ is a string int() accepts (is_int_str)")
+        ex.assume(P_is_int_str(z3.SubSeq(st, pt, end.t - pt)))
     names = [a["name"] for a in info["alts"] if a["name"]]
     if names and len(names) == len(info["alts"]):
         kind = ex.fresh("re_lastgroup", "str")
@@ -169,7 +188,9 @@ def match_method(I, m: HObj, name, args, kw):
                 tag = ex.fresh(f"marker_{g}", "int").t
                 from .api import Const
 
-                ex.shared[key] = SLazy(tag, [Const(v) for v in MARKERS], f"group({g!r})")
+                lz = SLazy(tag, [Const(v) for v in MARKERS], f"group({g!r})")
+                lz.defer = True
+                ex.shared[key] = lz
             return ex.shared[key]  # resolved lazily (a dict lookup that covers all five values does not fork)
         if isinstance(g, (str, int)):
             I.use("re: a text group that takes part in the alternative handled is a substring of the match")
